@@ -671,6 +671,14 @@ def field_of(ptr, fn, module):
     if root[0] == "arg":
         ty = fn.args[root[1]].ty
         tid = module.di_struct_for_ir(ty)
+        if not tid and ty == "i8*":
+            # a void * parameter that the function immediately converts: `ringbuf_t *rb = p;` - take the struct type of
+            # the (unique) pointer cast of the argument
+            tys = set(i.ty for i in fn.real_insts() if i.op == "bitcast" and i.ops and i.ops[0].k == "arg"
+                      and i.ops[0].name == fn.args[root[1]].name and i.ty.startswith("%struct."))
+            if len(tys) == 1:
+                ty = list(tys)[0]
+                tid = module.di_struct_for_ir(ty)
         if tid:
             sname = ty.rstrip("*").split(".", 1)[1]
     elif root[0] == "g":
